@@ -544,4 +544,18 @@ theorem specAl_of_all_ge (minVar : Rat) (trees : List TreeOut)
   unfold specAl rawAl
   rw [this]
 
+/-! ### the environment of the call -/
+
+/-- with `require="sharedmem"` the tasks always run where the caller's arrays are -/
+theorem resolve_code_shared (cpus : Nat) (a : Ambient) (nJobs : Option Int) :
+    (resolve cpus codeHints a nJobs).shared = true ∧ (resolve cpus codeHints a nJobs).backend.sharedmem = true := by
+  rcases a with ⟨_ | b, nj⟩
+  · simp [resolve, codeHints, Backend.sharedmem]
+  · cases b <;> simp [resolve, codeHints, Backend.sharedmem]
+
+/-- a context backend is never overridden by a mere preference -/
+theorem resolve_prefer_keeps_backend (cpus : Nat) (b : Backend) (nj nJobs : Option Int) :
+    (resolve cpus ⟨true, false⟩ ⟨some b, nj⟩ nJobs).backend = b := by
+  cases b <;> simp [resolve, Backend.sharedmem, Backend.usesThreads]
+
 end DH.Forest
